@@ -222,6 +222,9 @@ func c03Gen(tier string, rng *rand.Rand, emit func(interface{})) {
 							}
 						}
 					}
+					if tied && (n1+n2)%2 == 0 && n1+n2 >= 3 {
+						x1, x2 = mwOnePair(rng, n1, n2) // exactly one tied pair
+					}
 					emit(c03Family(rng, x1, x2, []c03Limits{lm, def, {1000000, 1000000}}, false))
 				}
 			}
@@ -302,7 +305,7 @@ func c03Gen(tier string, rng *rand.Rand, emit func(interface{})) {
 	for n1 := 1; n1 <= 60; n1++ {
 		for n2 := 1; n2 <= 60; n2++ {
 			v := eqVals[(n1*7+n2)%len(eqVals)]
-			alts := []int{(n1 + n2) % 3 - 1}
+			alts := []int{(n1+n2)%3 - 1}
 			addRun(mwRun{EL: 0, TL: 0, X1: constS(n1, v), X2: constS(n2, v), Alts: alts})
 			if (n1+2*n2)%9 == int(rng.Intn(9)) || (n1 > 25 && n2 > 25 && (n1+n2)%4 == 0) {
 				addRun(mwRun{EL: 50, TL: 25, X1: constS(n1, v), X2: constS(n2, v), Alts: allAlts})
